@@ -30,6 +30,8 @@ OBLIGATIONS = [
      "statement": "arbitrary bytes: an accepted value has depth <= depthMax, arrays <= arrayItemsMax, objects <= membersMax, strings/keys <= stringLengthMax + 4, and distinct keys"},
     {"id": "C13_J5", "theorem": "Iora.C13.J5_last_wins", "kind": "proved",
      "statement": "for every object text within the limits the decoded object maps each key to the value of the LAST member of that name; keys are distinct"},
+    {"id": "C13_J5_bigint", "theorem": "Iora.C13.J5_big_integer", "kind": "proved",
+     "statement": "an integer token outside int64 is accepted and denotes strtod of its own text (Double)"},
     {"id": "C13_J5_assign", "theorem": "Iora.C13.J5_assign", "kind": "proved",
      "statement": "lookup after obj[k] = v yields v for k and is unchanged for every other key"},
     {"id": "C13_U1", "theorem": "Iora.C13.U1_utf8", "kind": "proved",
@@ -427,7 +429,7 @@ def parse_op(lim, text):
 def gen_parse_cases(rng, scale, dflt, st):
     cases = []
     # (a) grammar-generated valid texts, default limits
-    for i in range(3000 * scale):
+    for i in range(6000 * scale):
         t = gen_ws(rng) + gen_text(rng, st, 0, rng.choice([0, 1, 2, 3, 4, 6])) + gen_ws(rng)
         cases.append({"cat": "grammar", "ops": [parse_op(dflt, t)]})
     # every single escape form / every code-point boundary on its own
@@ -529,12 +531,23 @@ def gen_mutated_cases(rng, scale, dflt, st):
         t = gen_text(rng, st, 0, 3)
         if len(t) <= 80:
             cases.append({"cat": "prefix", "ops": [parse_op(dflt, t[:i]) for i in range(len(t) + 1)]})
-    for i in range(2500 * scale):
+    for i in range(5000 * scale):
         base = rng.choice(seeds) if rng.chance(1, 4) else gen_text(rng, st, 0, rng.choice([1, 2, 3]))
         lim = dflt if rng.chance(3, 4) else (rng.choice([0, 1, 2, 100]), rng.choice([0, 1, 2, 10000]), rng.choice([0, 1, 2, 10000]), rng.choice([0, 1, 3, 1000000]))
         cases.append({"cat": "mutated", "ops": [parse_op(lim, mutate(rng, base))]})
+    if scale > 1:
+        # thorough: EVERY position of every small seed document replaced by / prefixed with every special byte
+        for sd in seeds:
+            if len(sd) <= 40:
+                ops = []
+                for i in range(len(sd) + 1):
+                    for b in SPECIAL_BYTES:
+                        ops.append(parse_op(dflt, sd[:i] + bytes([b]) + sd[i:]))
+                        if i < len(sd):
+                            ops.append(parse_op(dflt, sd[:i] + bytes([b]) + sd[i + 1:]))
+                cases.append({"cat": "exhaustive-1byte", "ops": ops})
     alpha = bytes(SPECIAL_BYTES)
-    for i in range(1000 * scale):
+    for i in range(2000 * scale):
         n = rng.range(0, 24)
         t = bytes(rng.choice(alpha) for _ in range(n)) if rng.chance(2, 3) else rng.bytes(n)
         cases.append({"cat": "random-bytes", "ops": [parse_op(dflt, t)]})
@@ -635,7 +648,7 @@ def has_object(v):
 def gen_ser_specs(rng, scale, st):
     """(pretty, sort, indent, src, value or None)"""
     specs = []
-    for i in range(2000 * scale):
+    for i in range(4000 * scale):
         v = gen_value(rng, st, 0, rng.choice([0, 0, 1, 2, 3, 4]))
         specs.append((rng.below(2), rng.below(2), rng.choice(INDENTS), "v" + v_canon(v), v))
     for b in DOUBLE_EDGES:
@@ -650,7 +663,7 @@ def gen_ser_specs(rng, scale, st):
             if -2 ** 63 <= x < 2 ** 63:
                 specs.append((0, 0, b"  ", "v" + v_canon(x), x))
     # texts: parse, then serialize what was parsed
-    for i in range(600 * scale):
+    for i in range(1200 * scale):
         t = gen_text(rng, st, 0, rng.choice([1, 2, 3, 4]))
         specs.append((rng.below(2), rng.below(2), rng.choice(INDENTS), "t" + t.hex(), NOVALUE))
     # deep values (serializer recursion, pretty indentation at depth)
@@ -784,7 +797,7 @@ def run(ctx: Ctx):
     if ctx.replay:
         return replay(ctx)
     quick = ctx.tier == "quick"
-    scale = 1 if quick else 12
+    scale = 1 if quick else 15
     rng = ctx.rng
     ctx.translate(["json"])
     ok_build = ctx.lake_build(MODULES)
